@@ -6,6 +6,12 @@ HERE = os.path.dirname(os.path.dirname(os.path.abspath(__file__)))
 
 # id -> (technique, level text, level note, design ref)
 CLAIMED = {
+ "C02": ("must-pass-through (dominance, compositional success-implies) + value provenance + ownership over go/ssa",
+         "Decides on every path that Dial succeeds only after the response MAC check, a successful ntor.ClientHandshake on the right operands and a true CompareAuth between that call's AUTH and the received AUTH bytes; HMAC key = identity|node-id; link keys installed only after the parser succeeded, from Kdf of its seed; raw connection closed on failure; CompareAuth constant-time on both full operands; keypairs originate from a per-connection NewKeypair(true). Cryptographic strength is not decided.",
+         "go/types+go/ssa faithful; hmac.Equal is constant-time equality", "DESIGN.md section 4, C02"),
+ "C04": ("must-pass-through with monotone-flag phis + accumulator sequence reconstruction + constants/ownership over go/ssa",
+         "Decides that WrapConn succeeds only after hmac.Equal==true and ReplayFilter.TestAndSet==false on the very MAC slice compared (stamped time.Now()), the MAC input is resp[:pos+16]|decimal(Unix()/3600+off) for off in exactly {-1,0,+1}, the filter is the single per-factory one, its TTL covers the 3 h window and the reply is bound to the matched hour. Filter behaviour over histories is C11.",
+         "go/types+go/ssa faithful; hmac/strconv/time behave as documented", "DESIGN.md section 4, C04"),
  "C03": ("must-pass-through (dominance) + who-writes/who-calls + provenance allow-list over go/ssa",
          "Decides structural necessary conditions of the statement on every path of the server code: no raw-connection write site is reachable before the handshake validation succeeded, every post-read failure return funnels through the delayed closer, the close deadline is a function of accept time, per-bridge closeDelay and constants only, 30 s/60 constants, single deferred Close, deadline armed before first read. Wall-clock behaviour is not decided.",
          "go/types+go/ssa faithful; net.Conn implementations honour the interface contract; io.Copy(io.Discard, r) only reads", "DESIGN.md section 4, C03"),
